@@ -162,6 +162,9 @@ class TracepointConfigService:
         :return: the new TracePointConfig
         """
         config = build_trigger(str(uuid.uuid4()), path, line, args, watches, metrics)
+        if config is None:
+            # refuse visibly, and do not keep an entry the handler cannot use
+            raise ValueError("Cannot interpret tracepoint arguments: %s" % (args,))
         self._custom.append(config)
         self.__trigger_update(None, None)
         return config.id
